@@ -308,6 +308,25 @@ Proof.
     apply hdr_at_found; [lia|reflexivity].
 Qed.
 
+(* the same with the fuel the reader model uses (|file|+1) *)
+Lemma recover_reader ftyp_pl moov_pl ps j z :
+  Forall wf_part ps -> wf_bytes (crash_image ftyp_pl moov_pl ps j z) = true ->
+  moof_loop (crash_image ftyp_pl moov_pl ps j z) (fuel_of_file (crash_image ftyp_pl moov_pl ps j z))
+    (len (init_bytes ftyp_pl moov_pl)) (-1)
+  = Ok (expect_last ps (len (init_bytes ftyp_pl moov_pl)) j (-1)).
+Proof.
+  intros Hwf Hb.
+  set (img := crash_image ftyp_pl moov_pl ps j z) in *.
+  pose proof (recover_all ftyp_pl moov_pl ps j z (S (length ps)) Hwf ltac:(lia)) as R. fold img in R.
+  destruct (le_lt_dec (S (length ps)) (fuel_of_file img)) as [Hle|Hlt].
+  - exact (moof_loop_fuel img _ _ _ _ R _ Hle).
+  - destruct (moof_loop_ok img Hb (fuel_of_file img) (len (init_bytes ftyp_pl moov_pl)) (-1)) as [l Hl].
+    + unfold len. lia.
+    + unfold fuel_of_file, flen, len. lia.
+    + rewrite Hl. pose proof (moof_loop_fuel img _ _ _ _ Hl (S (length ps)) ltac:(lia)) as R2.
+      rewrite R in R2. congruence.
+Qed.
+
 (* what the walk finds is the last complete part or the part after it: the loss is bounded by one part *)
 Lemma expect_last_bound : forall ps off j last,
   let c := complete ps j in
@@ -345,6 +364,13 @@ Proof.
   rewrite H. specialize (Hstep ps off (complete ps j - 1)%nat).
   replace (S (complete ps j - 1)) with (complete ps j) in Hstep by lia. exact Hstep.
 Qed.
+
+Lemma loss_bound_all : forall ps off j last,
+  let c := complete ps j in
+  ((c = O /\ (expect_last ps off j last = last \/ expect_last ps off j last = off)) \/
+   (c <> O /\ (expect_last ps off j last = offset_of ps off (c - 1) \/ expect_last ps off j last = offset_of ps off c))) /\
+  (c <> O -> offset_of ps off (c - 1) <= expect_last ps off j last).
+Proof. intros ps off j last. split; [exact (expect_last_bound ps off j last)|exact (expect_last_complete ps off j last)]. Qed.
 
 (* close: the duration written and read back is the segment duration truncated to a millisecond *)
 Lemma closed_duration_all d : 0 <= d < 4294967296 * 1000000 ->
